@@ -87,6 +87,21 @@ MASKS3_LE4 = ["3:" + "".join("1" if i in c else "0" for i in range(9))
               for k in (1, 2, 3, 4) for c in itertools.combinations(range(9), k)]
 
 
+def _circ(n, drop=()):
+    c = (n - 1) / 2.0
+    return "%d:" % n + "".join("1" if ((i - c) ** 2 + (j - c) ** 2 <= (n / 2.0) ** 2 and (i, j) not in drop) else "0"
+                                for i in range(n) for j in range(n))
+
+
+# grids beyond 3x3 (many sub-apertures: separations and index arithmetic the small grids never produce)
+BIG = {"circ7": _circ(7), "asym5": _circ(5, drop=((0, 1), (2, 2), (4, 3))), "circ8": _circ(8, drop=((3, 3), (3, 4), (4, 3), (4, 4)))}
+BIG_TUPLES = [
+    (("circ7", "N0", "d1"),), (("circ7", "L90o", "d1"),), (("asym5", "Nxy", "d2"),), (("circ8", "L20", "d1"),),
+    (("circ7", "N0", "d1"), ("asym5", "L90o", "d1")), (("asym5", "Nx", "d1"), ("asym5", "L20", "d2")),
+    (("asym5", "N0", "d1"), ("circ7", "Nxy", "d1"), ("asym5", "L90", "d1")),
+]
+
+
 def mask_array(name):
     n, bits = name.split(":")
     n = int(n)
@@ -103,7 +118,7 @@ def BOUNDS(tier):
             "layer_sets": ["".join(map(str, s)) for s in LAYER_SETS],
             "wavelengths_nm": [500, 700], "kinds": {k: list(map(_plain, v)) for k, v in KINDS.items()},
             "subap_size_options": {"d1": "D/n", "d2": "D/(2n)"},
-            "masks_2x2": MASKS2, "masks_3x3_named": NAMED3,
+            "masks_2x2": MASKS2, "masks_3x3_named": NAMED3, "big_grids(5x5,7x7,8x8)": {"masks": BIG, "tuples": [[list(x) for x in t] for t in BIG_TUPLES]},
             "masks_3x3_le4cells": len(MASKS3_LE4) if tier == "thorough" else 0,
             "tuples": _tuple_rule(tier), "r0_scale_factor": 2.0, "threads": [1, 2]}
 
@@ -201,6 +216,8 @@ def _tuples(tier):
                     add(m, k, d)
             for m in itertools.product(T2M, repeat=3):
                 add(m, k, ("d1",) * 3)
+    for t in BIG_TUPLES:
+        out.append(tuple((BIG[m], k, d) for m, k, d in t))
     return out
 
 
